@@ -184,7 +184,7 @@ class Gen:
                 nv = self.r.randint(1, 3)
                 vs = []
                 for j in range(nv):
-                    ts = [fty(("scalar", "named")) for _ in range(self.r.choice([0, 1, 1, 2]))]
+                    ts = [fty(("scalar", "named")) for _ in range(self.r.choice([0, 1, 1, 2, 3, 4]))]
                     vs.append(["V%d_%d" % (i, j), ts])
                 self.types[name] = {"k": "enum", "n": name, "ps": ps, "vs": vs}
             elif self.has("rec"):
@@ -691,6 +691,14 @@ class Gen:
         target = r.choice([n, c]) if n not in self.protected else c
         if ty[0] == "list":
             ss.append({"k": "lcall", "m": "push", "r": var(target), "args": [self.expr(ty[1], 0, True)]})
+            if self.is_plain(ty[1]):
+                # a list that extends another one by an element: equal prefix, different length
+                c2 = self.fresh("c")
+                ext = {"k": "lcall", "m": "concat", "r": var(n), "args": [{"k": "list", "es": [self.expr(ty[1], 0, True)]}],
+                       "plus": r.random() < 0.5}
+                ss.append(let(c2, ty, ext))
+                ss.append(host("emit", "bool", self.tag(), [binop("eq", "list", var(n), var(c2))]))
+                ss.append(host("emit", "bool", self.tag(), [binop("ne", "list", var(c2), var(c))]))
         else:
             paths = self.field_paths(ty, [target], 2)
             if paths and r.random() < 0.7:
